@@ -297,20 +297,25 @@ impl JoinOp {
     pub fn is_equi_join(&self) -> bool {
         self.condition
             .as_ref()
-            .map_or(false, |c| Self::is_equi_condition(c))
+            .map_or(false, |c| Self::is_equi_condition(c, self.left_schema.num_columns()))
     }
 
-    fn is_equi_condition(expr: &BoundExpression) -> bool {
+    /// A conjunction of `column = column` where each equality takes one column from either input
+    /// (indices are in the combined schema: the first `left_cols` belong to the left input).
+    fn is_equi_condition(expr: &BoundExpression, left_cols: usize) -> bool {
         match expr {
             BoundExpression::BinaryOp {
                 op, left, right, ..
             } => match op {
-                BinaryOperator::Eq => {
-                    matches!(left.as_ref(), BoundExpression::ColumnBinding(_))
-                        && matches!(right.as_ref(), BoundExpression::ColumnBinding(_))
-                }
+                BinaryOperator::Eq => match (left.as_ref(), right.as_ref()) {
+                    (BoundExpression::ColumnBinding(l), BoundExpression::ColumnBinding(r)) => {
+                        (l.column_idx < left_cols) != (r.column_idx < left_cols)
+                    }
+                    _ => false,
+                },
                 BinaryOperator::And => {
-                    Self::is_equi_condition(left) && Self::is_equi_condition(right)
+                    Self::is_equi_condition(left, left_cols)
+                        && Self::is_equi_condition(right, left_cols)
                 }
                 _ => false,
             },
@@ -336,7 +341,12 @@ impl JoinOp {
                     if let (BoundExpression::ColumnBinding(l), BoundExpression::ColumnBinding(r)) =
                         (left.as_ref(), right.as_ref())
                     {
-                        keys.push((l.column_idx, r.column_idx));
+                        // (left input column, right input column), whichever way it was written
+                        if l.column_idx <= r.column_idx {
+                            keys.push((l.column_idx, r.column_idx));
+                        } else {
+                            keys.push((r.column_idx, l.column_idx));
+                        }
                     }
                 }
                 BinaryOperator::And => {
